@@ -3,7 +3,7 @@
 import glob, os, shutil, subprocess, tempfile, sys
 ENV = dict(os.environ, GOFLAGS="-mod=mod", GOPROXY="off", GOSUMDB="off", GOTOOLCHAIN="local")
 ENV.pop("GOWORK", None)
-ids = sys.argv[1:] or sorted(os.path.basename(d) for d in glob.glob('/verif/hunted/C*'))
+ids = sys.argv[1:] or sorted(os.path.basename(d) for d in glob.glob('/verif/hunted/*C[0-9][0-9]-v*'))
 for i in ids:
     s = tempfile.mkdtemp(prefix="kvqlhunt-")
     try:
